@@ -168,7 +168,7 @@ class Engine:
         cfg = {
             "engine": NAME,
             "steps": rng.choice([6, 10, 16, 25, 40, 60] if tier == "thorough" else [6, 10, 16, 25, 40]),
-            "vkind": rng.choice(["int", "int", "str"]),
+            "vkind": rng.choice(["int", "int", "int", "str", "str", "tuple"]),
             "nverts": rng.randint(2, 10 if tier == "thorough" else 8),
             "alpha": rng.choice(["single", "single", "single", "double", "mixedlen"]),
             "nlabels": rng.randint(1, 5),
@@ -243,6 +243,9 @@ class Engine:
     def universe(self, cfg):
         if cfg["vkind"] == "int":
             return list(range(cfg["nverts"]))
+        if cfg["vkind"] == "tuple":
+            # pair-named states, as in a product automaton
+            return [(i, j) for i in range(4) for j in range(3)][:cfg["nverts"]]
         return ["p", "q", "s", "u", "v", "w", "x", "y", "z", "t"][:cfg["nverts"]]
 
     def alphabet(self, cfg):
@@ -370,8 +373,12 @@ class Engine:
         r = rng.random()
         live = world.live()
         if r < 0.12:
-            gens = rng.sample(["a", "b", "c"], rng.randint(1, 3))
-            return {"op": "ctor_free", "new": self._new_id(world), "gens": sorted(gens)}
+            gens = sorted(rng.sample(["a", "b", "c"], rng.randint(1, 3)))
+            if rng.random() < 0.2:
+                # a redundant generating set: an inverse pair or a repeated name
+                g = rng.choice(gens)
+                gens = gens + [rng.choice([g, g.upper()])]
+            return {"op": "ctor_free", "new": self._new_id(world), "gens": gens}
         if r < 0.16:
             U = self.universe(cfg)
             # an automaton built up from nothing: FSA() / FSA(start_vertices=[...])
@@ -511,6 +518,8 @@ class Engine:
         layout = self._gen_layout(rng)
         if any(x[:1].isdigit() for x in table["names"]):
             layout["quote_names"] = True
+        if rng.random() < 0.15:
+            layout["accepting_subset"] = sorted(rng.sample(range(1, table["n"] + 1), rng.randint(0, table["n"])))
         fn = "f%d.wa" % (len(world.files) + 1 + world.steps_done * 10)
         if world.files and rng.random() < 0.25:
             fn = rng.choice(sorted(world.files))       # the caller overwrites a file it wrote earlier
@@ -728,7 +737,32 @@ class Engine:
         return {"op": "x_reject", "h": h.id, "kind": kind}
 
     # ------------------------------------------------------------------ interpreter
+    @staticmethod
+    def _devertex(op):
+        """replay files are JSON: tuple-named vertices come back as lists"""
+        def v(x):
+            return tuple(x) if isinstance(x, list) else x
+        o = dict(op)
+        for key in ("v", "w", "t", "hd", "root", "start", "state"):
+            if key in o:
+                o[key] = v(o[key])
+        for key in ("vs", "starts"):
+            if isinstance(o.get(key), list):
+                o[key] = [v(x) for x in o[key]]
+        if isinstance(o.get("e"), list):
+            o["e"] = [v(o["e"][0]), v(o["e"][1]), o["e"][2]]
+        if isinstance(o.get("more"), list):
+            o["more"] = [[v(e[0]), v(e[1]), e[2]] for e in o["more"]]
+        if isinstance(o.get("content"), list):
+            if o["op"] == "ctor_label":
+                o["content"] = [[v(a), [[l, v(t)] for l, t in nb]] for a, nb in o["content"]]
+            else:
+                o["content"] = [[v(a), [[v(w), list(ls)] for w, ls in nb]] for a, nb in o["content"]]
+        return o
+
     def apply(self, world, op):
+        if world.cfg.get("vkind") == "tuple":
+            op = self._devertex(op)
         k = op["op"]
         world.steps_done += 1
         fn = getattr(self, "_do_" + k, None)
@@ -908,7 +942,7 @@ class Engine:
 
     def _do_ctor_free(self, world, op, vs):
         gens = list(op["gens"])
-        allg = gens + [g.upper() for g in gens]
+        allg = sorted(set(gens) | {g.swapcase() for g in gens})
         V = set([""] + allg)
         E = {(g, h, h) for g in [""] + allg for h in allg if h.swapcase() != g}
         try:
@@ -1607,8 +1641,15 @@ class Engine:
         if not (h.S and h.S[0] in h.V):
             return "skipped:no-default-start"
         w = list(op["word"])
-        if any(not isinstance(l, str) or len(l) != 1 for l in w):
-            return "skipped:multichar"
+        if any(not isinstance(l, str) for l in w):
+            return "skipped:non-string-labels"
+        if any(len(l) != 1 for l in w):
+            # multi-character labels: the word is a list of labels, the answer their concatenation
+            if op.get("rejected"):
+                return "skipped:multichar"
+            v, n = self._walk(h, h.S[0], w)
+            return self._q(world, op, vs, lambda a: a.initial_accepted_subword(list(w)),
+                           lambda h: "".join(w[:n]), "C10")
         word = "".join(w)
         v, n = self._walk(h, h.S[0], w)
         if op.get("rejected"):
